@@ -15,6 +15,9 @@ Definition show_list {A} (f : A -> string) (l : list A) : string :=
 
 Close Scope string_scope.
 
+Lemma forallb_ext' {A} (f g : A -> bool) l : (forall a, f a = g a) -> forallb f l = forallb g l.
+Proof. intros H. induction l as [|a l IH]; simpl; [reflexivity|]. now rewrite H, IH. Qed.
+
 (* ---- association lists keyed by nat (insertion ordered, update in place, like a dict) ---- *)
 Section Assoc.
   Context {V : Type}.
